@@ -6,6 +6,7 @@ SQLite" predicates are the parameter `E : Ext`; no law about them is needed for 
 structural theorems; `NoCollision` is the stated CRC caveat.
 -/
 import RqModel.Model.SnapStream
+import RqModel.Lemmas.SnapStream
 namespace C10
 open RqModel.SnapStream
 
@@ -54,6 +55,51 @@ theorem restoreWals_spec (E : Ext) : ∀ (hs : List FileHdr) (s : Bytes) (ws : L
               simp only [List.getElem_cons_succ]
               exact e3 k (by simpa using hi) (by simpa using hj)
 
+/-- case analysis of a successful `restore` -/
+theorem restore_cases (E : Ext) (s db : Bytes) (wals : List Bytes) (h : restore E s = .ok db wals) :
+    ∃ (dbh : FileHdr) (walhs : List FileHdr),
+      4 ≤ s.length ∧ 4 + be32 s ≤ s.length ∧
+      E.decode ((s.drop 4).take (be32 s)) = some ⟨1, .full (some dbh) walhs⟩ ∧
+      dbh.size ≤ (s.drop (4 + be32 s)).length ∧
+      db = (s.drop (4 + be32 s)).take dbh.size ∧ E.crc db = dbh.crc ∧
+      restoreWals E walhs ((s.drop (4 + be32 s)).drop dbh.size) = .ok (wals, []) := by
+  simp only [restore] at h
+  split at h
+  · cases h
+  rename_i h1
+  split at h
+  · cases h
+  rename_i h2
+  split at h
+  · cases h
+  rename_i hdr hd
+  split at h
+  · cases h
+  rename_i hv
+  split at h
+  · cases h
+  · cases h
+  · cases h
+  rename_i dbh walhs hp
+  split at h
+  · cases h
+  rename_i h3
+  split at h
+  · cases h
+  rename_i h4
+  split at h
+  · cases h
+  rename_i ws r hw
+  split at h
+  · cases h
+  rename_i hr
+  obtain ⟨rfl, rfl⟩ := RestoreRes.ok.inj h
+  have hr' : r = [] := by simpa using hr
+  subst hr'
+  have hv' : hdr.version = 1 := by simpa using hv
+  refine ⟨dbh, walhs, by omega, by omega, ?_, by omega, rfl, by simpa using h4, hw⟩
+  rw [hd]; cases hdr; simp_all
+
 /-- **restore_exact.** If `Restore` succeeds, the stream is precisely
 `length ‖ header ‖ db ‖ wals` for the header protobuf decoded from it: version 1, a database
 header, every file of the announced size and CRC, and NOTHING after the last file. -/
@@ -64,216 +110,302 @@ theorem restore_exact (E : Ext) (s db : Bytes) (wals : List Bytes) (h : restore 
       db.length = dbh.size ∧ E.crc db = dbh.crc ∧ wals.length = walhs.length ∧
       ∀ i (hi : i < wals.length) (hj : i < walhs.length),
         (wals[i]).length = (walhs[i]).size ∧ E.crc wals[i] = (walhs[i]).crc := by
-  unfold restore at h
-  by_cases h1 : s.length < 4
-  · simp [h1] at h
-  · simp only [h1, if_false] at h
-    by_cases h2 : s.length < 4 + be32 s
-    · simp [h2] at h
-    · simp only [h2, if_false] at h
-      cases hd : E.decode (List.take (be32 s) (List.drop 4 s)) with
-      | none => simp [hd] at h
-      | some hdr =>
-        simp only [hd] at h
-        by_cases hv : hdr.version ≠ 1
-        · simp [hv] at h
-        · simp only [hv, if_false] at h
-          have hv' : hdr.version = 1 := by simpa using hv
-          cases hp : hdr.payload with
-          | none => simp [hp] at h
-          | incremental d => simp [hp] at h
-          | full odb walhs =>
-            cases odb with
-            | none => simp [hp] at h
-            | some dbh =>
-              simp only [hp] at h
-              by_cases h3 : (List.drop (4 + be32 s) s).length < dbh.size
-              · simp [h3] at h
-              · simp only [h3, if_false] at h
-                by_cases h4 : E.crc (List.take dbh.size (List.drop (4 + be32 s) s)) ≠ dbh.crc
-                · simp [h4] at h
-                · simp only [h4, if_false] at h
-                  cases hw : restoreWals E walhs (List.drop dbh.size (List.drop (4 + be32 s) s)) with
-                  | error e => simp [hw] at h
-                  | ok v =>
-                    obtain ⟨ws, r⟩ := v
-                    simp only [hw] at h
-                    by_cases hr : r ≠ []
-                    · simp [hr] at h
-                    · simp only [hr, if_false] at h
-                      have hr' : r = [] := by simpa using hr
-                      obtain ⟨rfl, rfl⟩ := RestoreRes.ok.inj h
-                      obtain ⟨e1, e2, e3⟩ := restoreWals_spec E _ _ _ _ hw
-                      subst hr'
-                      refine ⟨s.take 4, (s.drop 4).take (be32 s), dbh, walhs, ?_, ?_, ?_, ?_, ?_, ?_, e2, e3⟩
-                      · -- reassemble the stream from its slices
-                        have a1 : s = s.take 4 ++ s.drop 4 := (List.take_append_drop 4 s).symm
-                        have a2 : s.drop 4 = (s.drop 4).take (be32 s) ++ (s.drop 4).drop (be32 s) :=
-                          (List.take_append_drop _ _).symm
-                        have a3 : (s.drop 4).drop (be32 s) = s.drop (4 + be32 s) := by
-                          rw [List.drop_drop]
-                        have a4 : s.drop (4 + be32 s) =
-                            (s.drop (4 + be32 s)).take dbh.size ++ (s.drop (4 + be32 s)).drop dbh.size :=
-                          (List.take_append_drop _ _).symm
-                        rw [List.append_nil] at e1
-                        calc s = s.take 4 ++ s.drop 4 := a1
-                          _ = s.take 4 ++ ((s.drop 4).take (be32 s) ++ s.drop (4 + be32 s)) := by
-                              rw [← a3, ← a2]
-                          _ = s.take 4 ++ ((s.drop 4).take (be32 s) ++
-                                ((s.drop (4 + be32 s)).take dbh.size ++ ws.flatten)) := by
-                              rw [← e1, ← a4]
-                          _ = _ := by simp [List.append_assoc]
-                      · simp only [List.length_take]; omega
-                      · have : be32 (s.take 4) = be32 s := by
-                          match s, h1 with
-                          | a :: b :: c :: d :: t, _ => rfl
-                          | [], h => simp at h
-                          | [_], h => simp at h
-                          | [_, _], h => simp at h
-                          | [_, _, _], h => simp at h
-                        rw [this]
-                        simp only [List.length_take, List.length_drop]; omega
-                      · rw [hd]; congr 1
-                        cases hdr; simp_all
-                      · simp only [List.length_take]; omega
-                      · simpa using h4
+  obtain ⟨dbh, walhs, h1, h2, hd, h3, hdb, hcrc, hw⟩ := restore_cases E s db wals h
+  obtain ⟨e1, e2, e3⟩ := restoreWals_spec E _ _ _ _ hw
+  refine ⟨s.take 4, (s.drop 4).take (be32 s), dbh, walhs, ?_, ?_, ?_, hd, ?_, hcrc, e2, e3⟩
+  · -- reassemble the stream from its slices
+    have a1 : s = s.take 4 ++ s.drop 4 := (List.take_append_drop 4 s).symm
+    have a2 : s.drop 4 = (s.drop 4).take (be32 s) ++ (s.drop 4).drop (be32 s) :=
+      (List.take_append_drop _ _).symm
+    have a3 : (s.drop 4).drop (be32 s) = s.drop (4 + be32 s) := by
+      rw [List.drop_drop]
+    have a4 : s.drop (4 + be32 s) =
+        (s.drop (4 + be32 s)).take dbh.size ++ (s.drop (4 + be32 s)).drop dbh.size :=
+      (List.take_append_drop _ _).symm
+    rw [List.append_nil] at e1
+    calc s = s.take 4 ++ s.drop 4 := a1
+      _ = s.take 4 ++ ((s.drop 4).take (be32 s) ++ s.drop (4 + be32 s)) := by
+          rw [← a3, ← a2]
+      _ = s.take 4 ++ ((s.drop 4).take (be32 s) ++
+            ((s.drop (4 + be32 s)).take dbh.size ++ wals.flatten)) := by
+          rw [← e1, ← a4]
+      _ = _ := by rw [hdb]; simp [List.append_assoc]
+  · simp only [List.length_take]; omega
+  · have : be32 (s.take 4) = be32 s := by
+      match s, h1 with
+      | a :: b :: c :: d :: t, _ => rfl
+    rw [this]
+    simp only [List.length_take, List.length_drop]; omega
+  · rw [hdb]; simp only [List.length_take]; omega
 
-/-- the stream length is fixed by its own header: a restored stream has exactly
-4 + |header| + Σ announced sizes bytes -/
+theorem restoreWals_length (E : Ext) : ∀ (hs : List FileHdr) (s : Bytes) (ws : List Bytes) (r : Bytes),
+    restoreWals E hs s = .ok (ws, r) → s.length = (hs.map (·.size)).sum + r.length := by
+  intro hs
+  induction hs with
+  | nil => intro s ws r h; simp [restoreWals] at h; simp [h.2]
+  | cons hd tl ih =>
+    intro s ws r h
+    simp only [restoreWals] at h
+    split at h
+    · cases h
+    rename_i h1
+    split at h
+    · cases h
+    split at h
+    · cases h
+    rename_i ws' r' hr
+    have := ih _ _ _ hr
+    obtain ⟨_, rfl⟩ := Prod.mk.inj (Except.ok.inj h)
+    simp only [List.length_drop] at this
+    simp only [List.map_cons, List.sum_cons]
+    omega
+
+/-- the stream length is fixed by its own first 4 + |header| bytes: a restorable stream has
+exactly 4 + |header| + Σ announced sizes bytes -/
 theorem restore_length (E : Ext) (s db : Bytes) (wals : List Bytes) (h : restore E s = .ok db wals) :
-    s.length = 4 + be32 s + db.length + wals.flatten.length := by
-  obtain ⟨pre, hb, dbh, walhs, hs, hp, hb', _⟩ := restore_exact E s db wals h
-  have : be32 s = be32 pre := by
-    subst hs
-    match pre, hp with
-    | [a, b, c, d], _ => rfl
-  rw [this, hb', hs]
-  simp [hp]; omega
+    ∃ dbh walhs, 4 + be32 s ≤ s.length ∧
+      E.decode ((s.drop 4).take (be32 s)) = some ⟨1, .full (some dbh) walhs⟩ ∧
+      s.length = 4 + be32 s + dbh.size + (walhs.map (·.size)).sum := by
+  obtain ⟨dbh, walhs, h1, h2, hd, h3, _, _, hw⟩ := restore_cases E s db wals h
+  refine ⟨dbh, walhs, h2, hd, ?_⟩
+  have := restoreWals_length E _ _ _ _ hw
+  simp only [List.length_drop, List.length_nil] at this h3
+  omega
 
-/-- **truncation_fails / extension_fails (Restore).** Of all the streams that share their
-first 4 + |header| bytes, at most one length restores: a strict prefix or an extension of
-a restorable stream does not restore. -/
+/-- two restorable streams that agree on their first 4 + |header| bytes have the same length -/
+theorem restore_same_header_same_length (E : Ext) (s s' db db' : Bytes) (wals wals' : List Bytes)
+    (h : restore E s = .ok db wals) (h' : restore E s' = .ok db' wals')
+    (hn : be32 s' = be32 s) (hh : (s'.drop 4).take (be32 s) = (s.drop 4).take (be32 s)) :
+    s'.length = s.length := by
+  obtain ⟨dbh, walhs, _, hd, hl⟩ := restore_length E s db wals h
+  obtain ⟨dbh', walhs', _, hd', hl'⟩ := restore_length E s' db' wals' h'
+  rw [hn, hh, hd] at hd'
+  have hp := congrArg SnapHeader.payload (Option.some.inj hd')
+  simp only [Payload.full.injEq, Option.some.injEq] at hp
+  obtain ⟨rfl, rfl⟩ := hp
+  omega
+
+/-- **truncation_fails (Restore).** No strict prefix of a restorable stream restores. -/
 theorem restore_truncation_fails (E : Ext) (s : Bytes) (db : Bytes) (wals : List Bytes)
     (h : restore E s = .ok db wals) (k : Nat) (hk : k < s.length) :
     ∀ db' wals', restore E (s.take k) ≠ .ok db' wals' := by
   intro db' wals' h'
-  obtain ⟨pre, hb, dbh, walhs, hs, hp, hbn, hdec, hdb, _, hwl, hws⟩ := restore_exact E s db wals h
-  obtain ⟨pre', hb', dbh', walhs', hs', hp', hbn', hdec', hdb', _, hwl', hws'⟩ :=
-    restore_exact E (s.take k) db' wals' h'
-  -- the prefix has at least 4 bytes, so both read the same length, hence the same header bytes
-  have hk4 : 4 ≤ k := by
-    have : (s.take k).length = (pre' ++ hb' ++ db' ++ wals'.flatten).length := by rw [← hs']
-    simp [hp'] at this; omega
-  have hpre : pre' = pre := by
-    have e1 : (s.take k).take 4 = pre' := by rw [hs']; simp [List.take_append, hp']
-    have e2 : s.take 4 = pre := by rw [hs]; simp [List.take_append, hp]
-    rw [← e1, ← e2, List.take_take]; congr 1; omega
-  have hlen : hb'.length = hb.length := by rw [← hbn', ← hbn, hpre]
-  have hkh : 4 + hb.length ≤ k := by
-    have : (s.take k).length = (pre' ++ hb' ++ db' ++ wals'.flatten).length := by rw [← hs']
-    simp [hp', hlen] at this; omega
-  have hhb : hb' = hb := by
-    have e1 : ((s.take k).drop 4).take hb.length = hb' := by
-      rw [hs']; simp [List.drop_append, List.take_append, hp', hlen]
-    have e2 : (s.drop 4).take hb.length = hb := by
-      rw [hs]; simp [List.drop_append, List.take_append, hp]
-    rw [← e1, ← e2, List.drop_take, List.take_take]; congr 1; omega
-  rw [hhb, hdec] at hdec'
-  have hh := Option.some.inj hdec'
-  have hdbh : dbh' = dbh := by
-    have := congrArg SnapHeader.payload hh
-    simp at this; exact this.1.symm
-  have hwalhs : walhs' = walhs := by
-    have := congrArg SnapHeader.payload hh
-    simp at this; exact this.2.symm
-  -- total lengths agree, contradiction with the cut
-  have sumlen : ∀ (ws : List Bytes) (hs : List FileHdr), ws.length = hs.length →
-      (∀ i (hi : i < ws.length) (hj : i < hs.length), (ws[i]).length = (hs[i]).size ∧ E.crc ws[i] = (hs[i]).crc) →
-      ws.flatten.length = (hs.map (·.size)).sum := by
-    intro ws
-    induction ws with
-    | nil => intro hs hl _; cases hs <;> simp_all
-    | cons w t ih =>
-      intro hs hl hall
-      cases hs with
-      | nil => simp at hl
-      | cons hh ht =>
-        have h0 := (hall 0 (by simp) (by simp)).1
-        have := ih ht (by simpa using hl) (fun i hi hj => by
-          have := hall (i + 1) (by simpa using hi) (by simpa using hj)
-          simpa using this)
-        simp at h0
-        simp [h0, this]
-  have L1 : s.length = 4 + hb.length + dbh.size + (walhs.map (·.size)).sum := by
-    rw [hs]; simp [hp, hdb, sumlen wals walhs hwl hws]; omega
-  have L2 : (s.take k).length = 4 + hb.length + dbh.size + (walhs.map (·.size)).sum := by
-    rw [hs']; simp [hp', hlen, hdb', hdbh, sumlen wals' walhs' hwl' hws', hwalhs]; omega
-  simp at L2; omega
+  obtain ⟨_, _, h2, _, _⟩ := restore_length E s db wals h
+  obtain ⟨dbh', walhs', h4, _, _, _, _⟩ := restore_cases E _ db' wals' h'
+  have hk4 : 4 ≤ k := by simp only [List.length_take] at h4; omega
+  have hn : be32 (s.take k) = be32 s := be32_take s k hk4
+  obtain ⟨_, _, h2', _, _⟩ := restore_length E _ db' wals' h'
+  rw [hn] at h2'
+  have hkn : 4 + be32 s ≤ k := by simp only [List.length_take] at h2'; omega
+  have hh : ((s.take k).drop 4).take (be32 s) = (s.drop 4).take (be32 s) := by
+    rw [List.drop_take, List.take_take]; congr 1; omega
+  have := restore_same_header_same_length E s (s.take k) db db' wals wals' h h' hn hh
+  simp only [List.length_take] at this; omega
+
+/-- **extension_fails (Restore).** No proper extension of a restorable stream restores. -/
+theorem restore_extension_fails (E : Ext) (s : Bytes) (db : Bytes) (wals : List Bytes)
+    (h : restore E s = .ok db wals) (e : Bytes) (he : e ≠ []) :
+    ∀ db' wals', restore E (s ++ e) ≠ .ok db' wals' := by
+  intro db' wals' h'
+  obtain ⟨_, _, h2, _, _⟩ := restore_length E s db wals h
+  have hn : be32 (s ++ e) = be32 s := be32_append s e (by omega)
+  have hh : ((s ++ e).drop 4).take (be32 s) = (s.drop 4).take (be32 s) := by
+    rw [List.drop_append_of_le_length (by omega), List.take_append_of_le_length]
+    simp only [List.length_drop]; omega
+  have := restore_same_header_same_length E s (s ++ e) db db' wals wals' h h' hn hh
+  simp only [List.length_append] at this
+  have : e.length = 0 := by omega
+  exact he (List.length_eq_zero_iff.1 this)
 
 /-! ### Sink -/
+
+/-- **split_independent.** Any two ways of cutting the same byte stream into non-empty
+writes give the same outcome (same installed files, or the same error kind). -/
+theorem split_independent (E : Ext) (due : Bool) (ws₁ ws₂ : List Bytes)
+    (h₁ : ∀ w ∈ ws₁, w ≠ []) (h₂ : ∀ w ∈ ws₂, w ≠ []) (hf : ws₁.flatten = ws₂.flatten) :
+    install E due ws₁ = install E due ws₂ := by
+  unfold install
+  by_cases e₁ : ws₁ = []
+  · subst e₁
+    have : ws₂ = [] := by
+      cases ws₂ with
+      | nil => rfl
+      | cons w t =>
+        have hw := h₂ w (by simp)
+        have : w ++ t.flatten = [] := by simpa using hf.symm
+        exact absurd (List.append_eq_nil_iff.1 this).1 hw
+    rw [this]
+  · have e₂ : ws₂ ≠ [] := by
+      intro e; subst e
+      cases ws₁ with
+      | nil => exact e₁ rfl
+      | cons w t =>
+        have hw := h₁ w (by simp)
+        have : w ++ t.flatten = [] := by simpa using hf
+        exact hw (List.append_eq_nil_iff.1 this).1
+    rw [runSink_flatten E due _ ws₁ _ rfl e₁ h₁, runSink_flatten E due _ ws₂ _ rfl e₂ h₂, hf]
+
+/-- the sink accepts a stream only if `Restore` accepts it, with the same files, which
+moreover look like a SQLite database / WALs -/
+theorem install_implies_restore (E : Ext) (due : Bool) (s db : Bytes) (wals : List Bytes)
+    (h : install E due [s] = .installed db wals) :
+    restore E s = .ok db wals ∧ E.validDb db = true ∧ wals.all E.validWal = true := by
+  obtain ⟨dbh, walhs, st, files, h1, h2, hd, hw, hf, hv⟩ := install_cases E due s db wals h
+  obtain ⟨rfl, hvd, hvw, hcd, hcw⟩ := verify_ok E dbh walhs files db wals hv
+  obtain ⟨fs, e1, e2, e3⟩ := fullWrite_finalize_sound walhs dbh [] [] _ st _ (by simp) hw hf
+  simp only [List.nil_append] at e1 e2
+  subst e1
+  cases e3 with
+  | cons hdb hws =>
+    refine ⟨?_, hvd, hvw⟩
+    simp only [List.flatten_cons] at e2
+    have hlen : dbh.size ≤ (s.drop (4 + be32 s)).length := by rw [← e2]; simp; omega
+    have htake : (s.drop (4 + be32 s)).take dbh.size = db := by rw [← e2, ← hdb]; simp
+    have hdrop : (s.drop (4 + be32 s)).drop dbh.size = wals.flatten := by rw [← e2, ← hdb]; simp
+    have hrw := restoreWals_complete E walhs wals [] hws hcw
+    simp only [List.append_nil] at hrw
+    simp only [restore]
+    rw [if_neg (by omega), if_neg (by omega), hd]
+    simp only [ne_eq, not_true_eq_false, if_false]
+    rw [if_neg (by omega), htake, if_neg (by simpa using hcd), hdrop, hrw]
+    simp
+
+/-- a stream `Restore` accepts, whose files look like SQLite files and are non-empty, is
+installed by the sink when written in one piece (hence, by `split_independent`, in any pieces) -/
+theorem restore_implies_install (E : Ext) (due : Bool) (s db : Bytes) (wals : List Bytes)
+    (h : restore E s = .ok db wals) (hvd : E.validDb db = true) (hvw : wals.all E.validWal = true)
+    (hne : ∀ w ∈ wals, w ≠ []) :
+    install E due [s] = .installed db wals := by
+  obtain ⟨dbh, walhs, h1, h2, hd, h3, hdb, hcrc, hw⟩ := restore_cases E s db wals h
+  obtain ⟨e1, e2, e3⟩ := restoreWals_sound E _ _ _ _ hw
+  simp only [List.append_nil] at e1
+  have hdbl : db.length = dbh.size := by rw [hdb]; simp only [List.length_take]; omega
+  have hbody : s.drop (4 + be32 s) = db ++ wals.flatten := by
+    rw [← e1, hdb, List.take_append_drop]
+  obtain ⟨st, f1, f2⟩ := fullWrite_finalize_complete walhs dbh [] db [] wals
+    (by simpa using SizesMatch.cons hdbl e2) hne
+  simp only [List.nil_append] at f1 f2
+  have hver : fullVerify E dbh walhs (db :: wals) = .ok (db, wals) := by
+    simp only [fullVerify, hvd, hvw, hcrc]
+    simp
+    intro x y hxy
+    exact e3 (x, y) hxy
+  simp only [install, runSink, sinkWrite, List.nil_append]
+  rw [if_neg (by omega), if_neg (by omega), hd]
+  simp only [ne_eq, not_true_eq_false, if_false, hbody, f1, sinkClose, f2, hver]
+
+/-- **install_exact.** Whatever the split, if the sink installs files then the stream is
+exactly `length ‖ header ‖ db ‖ wals` for the header decoded from it (version 1), each
+installed file has the announced size and CRC, nothing follows the last file, and the
+files pass the SQLite-format checks. A header that does not match the data cannot install. -/
+theorem install_exact (E : Ext) (due : Bool) (ws : List Bytes) (hne : ∀ w ∈ ws, w ≠ [])
+    (db : Bytes) (wals : List Bytes) (h : install E due ws = .installed db wals) :
+    ∃ (pre hb : Bytes) (dbh : FileHdr) (walhs : List FileHdr),
+      ws.flatten = pre ++ hb ++ db ++ wals.flatten ∧ pre.length = 4 ∧ be32 pre = hb.length ∧
+      E.decode hb = some ⟨1, .full (some dbh) walhs⟩ ∧
+      db.length = dbh.size ∧ E.crc db = dbh.crc ∧ wals.length = walhs.length ∧
+      (∀ i (hi : i < wals.length) (hj : i < walhs.length),
+        (wals[i]).length = (walhs[i]).size ∧ E.crc wals[i] = (walhs[i]).crc) ∧
+      E.validDb db = true ∧ wals.all E.validWal = true := by
+  have hws : ws ≠ [] := by
+    intro e; subst e; simp [install, runSink, sinkClose] at h
+  have h1 : install E due [ws.flatten] = .installed db wals := by
+    rw [← h]; unfold install
+    exact (runSink_flatten E due _ ws _ rfl hws hne).symm
+  obtain ⟨hr, hvd, hvw⟩ := install_implies_restore E due _ db wals h1
+  obtain ⟨pre, hb, dbh, walhs, a1, a2, a3, a4, a5, a6, a7, a8⟩ := restore_exact E _ db wals hr
+  exact ⟨pre, hb, dbh, walhs, a1, a2, a3, a4, a5, a6, a7, a8, hvd, hvw⟩
+
+/-- **truncation_fails.** If a stream installs, no strict prefix of it installs, however
+either is split into writes. -/
+theorem truncation_fails (E : Ext) (due : Bool) (s : Bytes) (db : Bytes) (wals : List Bytes)
+    (h : install E due [s] = .installed db wals) (ws : List Bytes) (hne : ∀ w ∈ ws, w ≠ [])
+    (k : Nat) (hk : k < s.length) (hws : ws.flatten = s.take k) :
+    ∀ db' wals', install E due ws ≠ .installed db' wals' := by
+  intro db' wals' h'
+  have hws' : ws ≠ [] := by
+    intro e; subst e; simp [install, runSink, sinkClose] at h'
+  have h1 : install E due [s.take k] = .installed db' wals' := by
+    rw [← h', ← hws]; unfold install
+    exact (runSink_flatten E due _ ws _ rfl hws' hne).symm
+  exact restore_truncation_fails E s db wals (install_implies_restore E due s db wals h).1 k hk db' wals'
+    (install_implies_restore E due _ db' wals' h1).1
+
+/-- **extension_fails.** If a stream installs, no proper extension of it installs. -/
+theorem extension_fails (E : Ext) (due : Bool) (s : Bytes) (db : Bytes) (wals : List Bytes)
+    (h : install E due [s] = .installed db wals) (ws : List Bytes) (hne : ∀ w ∈ ws, w ≠ [])
+    (e : Bytes) (he : e ≠ []) (hws : ws.flatten = s ++ e) :
+    ∀ db' wals', install E due ws ≠ .installed db' wals' := by
+  intro db' wals' h'
+  have hws' : ws ≠ [] := by
+    intro e; subst e; simp [install, runSink, sinkClose] at h'
+  have h1 : install E due [s ++ e] = .installed db' wals' := by
+    rw [← h', ← hws]; unfold install
+    exact (runSink_flatten E due _ ws _ rfl hws' hne).symm
+  exact restore_extension_fails E s db wals (install_implies_restore E due s db wals h).1 e he db' wals'
+    (install_implies_restore E due _ db' wals' h1).1
+
+/-- the CRC caveat: no two different byte strings of the same length share a CRC. (False
+of any 32-bit checksum in general; it is the stated assumption under which "checksum
+matches" means "bytes equal".) -/
+def NoCollision (E : Ext) : Prop := ∀ x y : Bytes, x.length = y.length → E.crc x = E.crc y → x = y
+
+/-- **header_mismatch_fails / source equality.** If the header of the stream was built from
+the source files (their sizes and CRCs) and the stream installs, the installed database IS
+the source database, unless the CRC collides. -/
+theorem installed_db_is_source (E : Ext) (hc : NoCollision E) (due : Bool) (ws : List Bytes)
+    (hne : ∀ w ∈ ws, w ≠ []) (db : Bytes) (wals : List Bytes)
+    (h : install E due ws = .installed db wals) (src : Bytes)
+    (hsrc : ∀ hb dbh walhs, E.decode hb = some ⟨1, .full (some dbh) walhs⟩ →
+      hb.length + 4 ≤ ws.flatten.length → (ws.flatten.drop 4).take hb.length = hb →
+      dbh.size = src.length ∧ dbh.crc = E.crc src) :
+    db = src := by
+  obtain ⟨pre, hb, dbh, walhs, a1, a2, a3, a4, a5, a6, _⟩ := install_exact E due ws hne db wals h
+  have := hsrc hb dbh walhs a4 (by rw [a1]; simp [a2]; omega) (by rw [a1]; simp [a2])
+  exact hc db src (by omega) (by rw [a6, this.2])
+
+/-- transport compression is transparent for any codec with the round-trip law -/
+theorem compression_transparent (E : Ext) (due : Bool) (comp decomp : Bytes → Bytes)
+    (hlaw : ∀ x, decomp (comp x) = x) (s : Bytes) :
+    install E due [decomp (comp s)] = install E due [s] := by rw [hlaw]
 
 /-- anything the sink installs passed the validity and CRC checks against the header the
 stream carried -/
 theorem installed_verified (E : Ext) (s : SinkSt) (db : Bytes) (wals : List Bytes)
     (h : sinkClose E s = .installed db wals) :
     ∃ dbh walhs st files, s = .full dbh walhs st ∧ fullFinalize st = some files ∧
-      fullVerify E dbh walhs files = .ok (db, wals) ∧ E.crc db = dbh.crc ∧ E.validDb db = true := by
+      fullVerify E dbh walhs files = .ok (db, wals) := by
   cases s with
   | header b => simp [sinkClose] at h
   | incremental d => simp [sinkClose] at h
   | full dbh walhs st =>
     simp only [sinkClose] at h
-    cases hf : fullFinalize st with
-    | none => simp [hf] at h
-    | some files =>
-      simp only [hf] at h
-      cases hv : fullVerify E dbh walhs files with
-      | error e => simp [hv] at h
-      | ok v =>
-        obtain ⟨d, w⟩ := v
-        simp only [hv] at h
-        obtain ⟨rfl, rfl⟩ := Outcome.installed.inj h
-        refine ⟨dbh, walhs, st, files, rfl, rfl, hv, ?_, ?_⟩
-        · unfold fullVerify at hv
-          cases files with
-          | nil => simp at hv
-          | cons f fs =>
-            simp only at hv
-            split at hv <;> try simp at hv
-            split at hv <;> try simp at hv
-            split at hv <;> try simp at hv
-            split at hv <;> try simp at hv
-            rename_i hc _
-            obtain ⟨rfl, _⟩ := hv
-            simpa using hc
-        · unfold fullVerify at hv
-          cases files with
-          | nil => simp at hv
-          | cons f fs =>
-            simp only at hv
-            split at hv <;> try simp at hv
-            rename_i hvd
-            split at hv <;> try simp at hv
-            split at hv <;> try simp at hv
-            split at hv <;> try simp at hv
-            obtain ⟨rfl, _⟩ := hv
-            simpa using hvd
+    split at h
+    · cases h
+    rename_i files hf
+    split at h
+    · cases h
+    rename_i d w hv
+    obtain ⟨rfl, rfl⟩ := Outcome.installed.inj h
+    exact ⟨dbh, walhs, st, files, rfl, hf, hv⟩
 
 /-- a stream that ends before its header is complete is never reported as installed -/
 theorem header_incomplete_fails (E : Ext) (buf : Bytes) : sinkClose E (.header buf) = .closeErr .incomplete := rfl
 
-/-! ### non-vacuity: a concrete stream through the concrete driver externals -/
+/-! ### non-vacuity: a concrete stream through concrete (toy) externals -/
 
-def exDb : Bytes := "SQLite format 3".toUTF8.toList ++ [0, 1, 2]
+def exDb : Bytes := [83, 81, 76, 0, 1, 2]
 def exHb : Bytes := [7, 7]
+def exSum (b : Bytes) : Nat := (b.map (·.toNat)).sum
 def exExt : Ext :=
-  { decode := fun b => if b = exHb then some ⟨1, .full (some ⟨exDb.length, crc32c exDb⟩) []⟩ else none,
-    crc := crc32c, validDb := validDbC, validWal := validWalC }
+  { decode := fun b => if b = exHb then some ⟨1, .full (some ⟨6, exSum exDb⟩) []⟩ else none,
+    crc := exSum, validDb := fun b => b.take 3 == [83, 81, 76], validWal := fun _ => true }
 
 example : restore exExt (frame exHb [exDb]) = .ok exDb [] := by decide
 example : install exExt false [frame exHb [exDb]] = .installed exDb [] := by decide
 example : install exExt false [(frame exHb [exDb]).take 9, (frame exHb [exDb]).drop 9] = .installed exDb [] := by decide
 example : install exExt false [frame exHb [exDb] ++ [0]] = .writeErr .unexpectedData := by decide
 example : restore exExt (frame exHb [exDb] ++ [0]) = .err .trailingData := by decide
+example : install exExt false [(frame exHb [exDb]).take 5] = .closeErr .incomplete := by decide
 
 end C10
